@@ -68,6 +68,9 @@ type Runtime struct {
 	srv    *grpc.Server
 	// OpFaults maps the ordinal of a write operation (1-based, counted at execution) to "unavail" | "acklost".
 	OpFaults map[int]string
+	// NoParkSubscribe names primitives whose event-stream opens are served without parking (see subscribe).
+	NoParkSubscribe func(prim string) bool
+	immediate       sync.Mutex
 	// OnWrite is called (on the scheduler goroutine) after every durable write.
 	OnWrite func(w WriteRec)
 	// Effects is shared with other fakes through the kernel-level counter.
@@ -280,7 +283,7 @@ func (r *Runtime) subscribe(ctx context.Context, prim, key string, kind int, ini
 	if kind == 2 {
 		opn = "watch"
 	}
-	ok := r.k.Park(fmt.Sprintf("op/%s/%s/%s", prim, opn, r.ck(key)), func() {
+	register := func() {
 		p := r.P(prim)
 		p.nsubs++
 		s.name = fmt.Sprintf("%s/%d", prim, p.nsubs)
@@ -290,7 +293,16 @@ func (r *Runtime) subscribe(ctx context.Context, prim, key string, kind int, ini
 		r.mu.Lock()
 		p.subs = append(p.subs, s)
 		r.mu.Unlock()
-	}, ctx)
+	}
+	if r.NoParkSubscribe != nil && r.NoParkSubscribe(prim) {
+		// The caller is known to hold a mutex across this call (v3 transaction store, newTransactions): parking it
+		// would leave other goroutines blocked on that mutex, which a synctest bubble cannot wait out. Served at once.
+		r.immediate.Lock()
+		register()
+		r.immediate.Unlock()
+		return s
+	}
+	ok := r.k.Park(fmt.Sprintf("op/%s/%s/%s", prim, opn, r.ck(key)), register, ctx)
 	if !ok {
 		return nil
 	}
